@@ -15,6 +15,10 @@ TLC computed.  Two compositional families: CmpLong edges (operands padded to 5 /
 prepending NaN -- the permitted outcomes come from the item SETS, law InvSetBased) and BinW / NotBinW edges
 (`and` / `or` over node operands written as RELATIVE paths a, b, missing, a/b from the document element,
 bare or inside not() boolean() empty() exists(), both operand orders, and not(P f Q) for De Morgan).
+Extension universe (compared with selected partners only): date / dateTime / time / g* values with timezones
+(zero hour field of both signs, half hours, +-14:00, Z; many denote the same instant) under the implicit
+timezone +05:00, and untypedAtomic values / element and attribute nodes whose lexical form is padded with
+space, TAB, CR, LF (nodes replayed on xml.etree and lxml trees).
 Second oracle for the SPEC on the XPath 1.0 fragment: libxml2 (lxml); disagreement
 is a machinery failure.  The 2.0 tables have no second oracle: see the section references in the
 modules and in known_findings.d/C07.json.
@@ -22,6 +26,7 @@ modules and in known_findings.d/C07.json.
 from __future__ import annotations
 
 import os
+import re
 from fractions import Fraction
 
 from .. import core, tla
@@ -29,8 +34,10 @@ from .. import core, tla
 UNIT = 1 << 24
 SYMS = {'eq': '=', 'ne': '!=', 'lt': '<', 'le': '<=', 'gt': '>', 'ge': '>='}
 CFGS = ['v20', 'v30', 'v31', 'c20', 'c31', 'c10']
-DOC = '<r><a>1</a><b>abc</b></r>'
-NODE_PATH = {'1': '/r/a', 'abc': '/r/b'}
+# the white space of <w>, <x>, y/@t is written with character references so that the parser keeps TAB / CR / LF
+DOC = ('<r><a>1</a><b>abc</b><w>&#10; true&#10;</w><x>&#13;&#10;&#9; 1 &#13;&#10;</x><y t="&#9;true&#9;"/></r>')
+NODE_PATH = {'1': '/r/a', 'abc': '/r/b', '\n true\n': '/r/w', '\r\n\t 1 \r\n': '/r/x', '\ttrue\t': '/r/y/@t'}
+IMPLICIT_TZ = '+05:00'           # EBV!ImplicitTZ = 300 minutes
 TIERS = {       # operand sequences up to MaxLen; EBV/logic operands always up to 2 items
     'quick': {'Compare': dict(MaxLen=2, Wide=True), 'Logic': dict(MaxLen=2, Wide=True)},
     'thorough': {'Compare': dict(MaxLen=3, Wide=True), 'Logic': dict(MaxLen=2, Wide=True)},
@@ -38,6 +45,7 @@ TIERS = {       # operand sequences up to MaxLen; EBV/logic operands always up t
 CTORS = {'str': 'xs:string', 'unt': 'xs:untypedAtomic', 'uri': 'xs:anyURI', 'qn': 'xs:QName', 'date': 'xs:date',
          'dt': 'xs:dateTime', 'time': 'xs:time', 'ymd': 'xs:yearMonthDuration', 'dtd': 'xs:dayTimeDuration',
          'dur': 'xs:duration', 'hex': 'xs:hexBinary', 'b64': 'xs:base64Binary',
+         'gy': 'xs:gYear', 'gym': 'xs:gYearMonth', 'gm': 'xs:gMonth', 'gmd': 'xs:gMonthDay', 'gd': 'xs:gDay',
          'int': 'xs:integer', 'dec': 'xs:decimal', 'flt': 'xs:float', 'dbl': 'xs:double'}
 NUMT = ('int', 'dec', 'flt', 'dbl')
 
@@ -69,6 +77,8 @@ def num_lex(v) -> str:
         return '-INF'
     if v['nz']:
         return '-0'
+    if v['k'] == 'big':
+        return str(2 ** 53 + v['n'])
     return dec_str(Fraction(v['n'], UNIT))
 
 
@@ -84,11 +94,11 @@ def render(v, style: str):
         if style == 'x10':
             if t == 'flt' or v['nz']:
                 return None
-            if v['k'] != 'fin':
+            if v['k'] not in ('fin', 'big'):
                 return {'nan': '(0 div 0)', 'pinf': '(1 div 0)', 'ninf': '(-1 div 0)'}[v['k']]
             return lex if not lex.startswith('-') else f'({lex})'
         # literal
-        if t == 'flt' or v['k'] != 'fin' or v['nz']:
+        if t == 'flt' or v['k'] not in ('fin', 'big') or v['nz']:
             return None
         if t == 'int':
             body = lex.lstrip('-')
@@ -214,21 +224,23 @@ def setup():
     try:
         from lxml import etree
         _state['lxml'] = etree.XML(DOC)
+        _state['lxml_tree'] = etree.XML(DOC)
     except ImportError:          # pragma: no cover
         _state['lxml'] = None
     return _state
 
 
-def evaluate(text: str, cfg: str, doc: bool = False) -> str:
+def evaluate(text: str, cfg: str, doc: bool = False, tree: str = 'et') -> str:
     import elementpath
     from elementpath.exceptions import ElementPathError
     st = setup()
     cls, kw = st['cfg'][cfg]
     try:
         if doc or '/r/' in text:
-            r = elementpath.select(st['root'], text, parser=cls, **kw)
+            root = st['root'] if tree == 'et' else st['lxml_tree']
+            r = elementpath.select(root, text, parser=cls, timezone=IMPLICIT_TZ, **kw)
         else:                      # no node operand: no document needed (the context item is never used)
-            r = elementpath.select(None, text, item=0, parser=cls, **kw)
+            r = elementpath.select(None, text, item=0, parser=cls, timezone=IMPLICIT_TZ, **kw)
     except ElementPathError as e:
         return (e.code or '?').split(':')[-1]
     except RecursionError:
@@ -274,13 +286,18 @@ def tag(S) -> str:
 def special(x) -> str:
     if x['t'] in NUMT:
         if x['k'] != 'fin':
-            return x['k']
+            return x['k']                 # nan pinf ninf big
         if x['nz']:
             return 'negzero'
         if x['n'] % (UNIT // 2) != 0:
             return 'near'                 # 1 + 2^-24, 2 - 2^-23: neighbours of 1 and 2
-    elif x['t'] in ('str', 'unt', 'uri', 'node') and len(x['s']) == 0:
-        return 'zero-length'
+    elif x['t'] in ('str', 'unt', 'uri', 'node'):
+        if len(x['s']) == 0:
+            return 'zero-length'
+        if len(x['s']) >= 16 and all(48 <= ch <= 57 for ch in x['s']):
+            return 'big'                  # lexical form of an integer beyond 2^53
+        if x['s'][0] in (9, 10, 13, 32) or x['s'][-1] in (9, 10, 13, 32):
+            return 'ws'                   # lexical form padded with XML white space
     return '-'
 
 
@@ -292,6 +309,18 @@ def tclass(t: str) -> str:
     if t == 'node':
         return 'unt'                      # an untyped node atomizes to xs:untypedAtomic
     return t
+
+
+NOTZ = 9999
+
+
+def tzmix(a, b) -> str:
+    """'-' no date/time operand | 'none' both without timezone | 'both' | 'mixed' exactly one has a timezone"""
+    za, zb = a.get('tz'), b.get('tz')
+    if za is None or zb is None:
+        return '-'
+    n = (za == NOTZ) + (zb == NOTZ)
+    return 'none' if n == 2 else 'both' if n == 0 else 'mixed'
 
 
 def pair_class(a, b) -> str:
@@ -347,6 +376,7 @@ def features(action, args, L, R, cfg, style, expected, observed) -> dict:
         return f
     if len(L) == 1 and len(R) == 1:
         f.update(cause='cell', pair=pair_class(L[0], R[0]), cell_expected=f['expected'], cell_observed=observed,
+                 tzmix=tzmix(L[0], R[0]),
                  special='+'.join(sorted({special(L[0]), special(R[0])} - {'-'})) or '-')
         return f
     if kind == 'val':
@@ -360,7 +390,7 @@ def features(action, args, L, R, cfg, style, expected, observed) -> dict:
             c = cell_outcome(kind, op, a, b, cfg)
             if c is not None and c[1] not in c[0] and 'UNSPEC' not in c[0]:
                 f.update(cause='cell', pair=pair_class(a, b), cell_expected='|'.join(sorted(c[0])), cell_observed=c[1],
-                         cexp_kind=okind(c[0]), cobs_kind=okind([c[1]]),
+                         cexp_kind=okind(c[0]), cobs_kind=okind([c[1]]), tzmix=tzmix(a, b),
                          special='+'.join(sorted({special(a), special(b)} - {'-'})) or '-')
                 return f
     f.update(cause='closure', pair='-', cell_expected=f['expected'], cell_observed=observed, special='-')
@@ -368,11 +398,11 @@ def features(action, args, L, R, cfg, style, expected, observed) -> dict:
 
 
 def cfgs_for(action, args, L, R):
-    """v30 and c31 share the code paths of v31 / c20 except for single pairs (binary order, casts):
+    """v20, v30 and c31 share the code paths of v31 / c20 except for single pairs (binary order, casts):
     they are replayed on single pairs only."""
     if len(L) <= 1 and len(R) <= 1:
         return CFGS
-    return ('v20', 'v31', 'c20', 'c10')
+    return ('v31', 'c20', 'c10')
 
 
 def styles_for(cfg: str, single: bool):
@@ -381,6 +411,9 @@ def styles_for(cfg: str, single: bool):
     if cfg == 'c10':
         return ('x10',)
     return ('ctor', 'lit') if single and cfg in ('v20', 'c20') else ('ctor',)
+
+
+WS_PATH = re.compile(r'/r/(w|x|y/@t)\b')     # a white space padded node: replayed on xml.etree AND lxml trees
 
 
 def worker(job):
@@ -431,18 +464,19 @@ def worker(job):
                     if ref is not None and set(allowed) != {ref}:
                         oracle.append(f'{text}: spec {sorted(allowed)} libxml2 {ref}')
                         continue
-                obs = evaluate(text, cfg)
-                n_eval += 1
-                if obs not in allowed:
-                    fails.append((features(action, args, L, R, cfg, style, allowed, obs),
-                                  dict(expr=text, cfg=cfg), sorted(allowed), obs))
+                for tree in (('et', 'lxml') if WS_PATH.search(text) else ('et',)):
+                    obs = evaluate(text, cfg, tree=tree)
+                    n_eval += 1
+                    if obs not in allowed:
+                        fails.append((features(action, args, L, R, cfg, style, allowed, obs),
+                                      dict(expr=text, cfg=cfg, tree=tree), sorted(allowed), obs))
     return n_eval, n_x10, n_unspec, fails, oracle
 
 
 def replay(rec: dict) -> int:
     core.setup_repo_path()
     case = rec['case']
-    obs = evaluate(case['expr'], case['cfg'], doc=bool(case.get('doc')))
+    obs = evaluate(case['expr'], case['cfg'], doc=bool(case.get('doc')), tree=case.get('tree', 'et'))
     print('expr     :', case['expr'], ' configuration', case['cfg'], ' document', DOC)
     print('permitted:', rec['expected'])
     print('observed :', obs)
@@ -469,7 +503,7 @@ def run(chk: core.Check) -> None:
         'spec/EBV.tla, Compare.tla, Logic.tla are the oracle; W3C sections are cited on every operator (no second oracle for the 2.0 tables)',
         'XPath 1.0 fragment of the tables cross-checked against libxml2 (lxml): disagreement = machinery failure',
         'where XPath 2.0 section 2.3.4 permits several outcomes (true vs. error of another pair; empty vs. XPTY0004) the whole set is accepted',
-        'all date/time values without timezone; code point collation; numeric values on the dyadic grid n/2^24 (exact promotion)',
+        'implicit timezone +05:00 passed as select(timezone=...); code point collation; numeric values on the dyadic grid n/2^24 (exact promotion)',
         'nodes are untyped elements of the document ' + DOC,
     ]
     plans = []
